@@ -24,7 +24,7 @@ from ..common import rng_for, b2j
 
 LEVEL = "exploration"
 SHARDS = {"quick": 8, "thorough": 16}
-REQUIRED = ("aba_same_process_steps", "definitions_probed", "cache_hits_observed", "cache_rewrites_observed", "same_length_variant_switches",
+REQUIRED = ("construct_probes_judged", "aba_same_process_steps", "definitions_probed", "cache_hits_observed", "cache_rewrites_observed", "same_length_variant_switches",
             "stale_pyc_situations", "orphan_pyc_situations", "seeded_foreign_cache_situations", "same_process_redefinitions",
             "bytecode_on_definitions", "bytecode_off_definitions", "earlier_classes_reprobed", "option_only_switches")
 MIN_NONTRIVIAL = 20
@@ -71,9 +71,14 @@ def designed_variants(rng):
     out.append(V("i1i2-unpackonly", fam_of([I("a", 1), I("b", 2)]), {"generate_for_pack": False}, rng))
     out.append(V("i2i1-packonly", fam_of([I("a", 2), I("b", 1)]), {"generate_for_unpack": False}, rng))
     out.append(V("i1i2-packonly", fam_of([I("a", 1), I("b", 2)]), {"generate_for_unpack": False}, rng))
+    def described(impl):
+        return fam_of([dict(I("a", 1), describe={"k": "alias", "of": "b", "impl": impl}),
+                       {"name": "b", "t": "data", "mode": "dyn", "size": {"form": "field", "e": ["f", "a"]}}])
+    out.append(V("desc-auto", described("autolength"), {}, rng))     # same field text, descriptor with a sync hook ...
+    out.append(V("desc-plain", described("plain"), {}, rng))         # ... and without one
     for v in out:
         v.kind = "designed"
-    twins = {"i1i2": "i2i1", "i1d2": "d1i2", "i2i1-unpackonly": "i1i2-unpackonly", "i2i1-packonly": "i1i2-packonly"}
+    twins = {"desc-auto": "desc-plain", "i1i2": "i2i1", "i1d2": "d1i2", "i2i1-unpackonly": "i1i2-unpackonly", "i2i1-packonly": "i1i2-packonly"}
     for a, b in twins.items():
         for v in out:
             if v.tag == a:
@@ -251,7 +256,9 @@ def judge_process(run, r, metas, by_tag, history, workdir):
                           dict(wit, traceback=act["exception"]["tb"][-800:]), None)
             return False
         run.count("definitions_probed")
-        bad = v.judge_probe(act["probe"])
+        bad = v.judge_probe(act["probe"]) + v.judge_constructs(act.get("construct_probe"))
+        if v.constructs:
+            run.count("construct_probes_judged")
         if bad:
             run.violation("the class does not behave per its current declaration (the cache served code of another declaration)",
                           dict(wit, mismatches=bad[:3]), None)
@@ -259,7 +266,7 @@ def judge_process(run, r, metas, by_tag, history, workdir):
         for tag, results in (act.get("reprobe_earlier") or {}).items():
             u = by_tag[tag.split("#")[0]]
             run.count("earlier_classes_reprobed")
-            bad = u.judge_probe(results)
+            bad = u.judge_probe(results["probe"]) + u.judge_constructs(results.get("construct_probe"))
             if bad:
                 run.violation("a class defined earlier in the process stopped behaving per its own declaration after a later definition",
                               dict(wit, earlier=tag, mismatches=bad[:3]), None)
